@@ -1148,6 +1148,7 @@ impl<'a> Oracle<'a> {
 /// enabled (a finding not listed for `prop` surfaces as an ordinary divergence).
 pub fn run_adp_history(h: &AdpHistory, prop: &str, known: &Known) -> Result<AFacts, Div> {
     table_reset();
+    LEAKED.with(|l| l.set(false));
     let r = run_inner(h, prop, known);
     let (live, faults, ids) = table_finish();
     let r = r?;
@@ -1159,7 +1160,7 @@ pub fn run_adp_history(h: &AdpHistory, prop: &str, known: &Known) -> Result<AFac
     if let Some(f) = faults.first() {
         return Err(Div { prop: "C20", what: format!("{f} ({} fault(s))", faults.len()) });
     }
-    if live != 0 {
+    if live != 0 && !LEAKED.with(|l| l.get()) {
         return Err(Div { prop: "C20", what: format!("{live} value(s) still alive after everything was dropped (ids {ids:?})") });
     }
     Ok(r)
@@ -1483,6 +1484,11 @@ fn run_inner(h: &AdpHistory, prop: &str, known: &Known) -> Result<AFacts, Div> {
     Ok(f)
 }
 
+thread_local! {
+    /// a transaction was leaked in the current history (its values stay alive: not a C20 fault)
+    static LEAKED: std::cell::Cell<bool> = const { std::cell::Cell::new(false) };
+}
+
 fn exec_src(ob: &mut ObservableVector<T>, vop: &VOp) {
     match vop {
         VOp::Txn(body, end) => {
@@ -1493,6 +1499,10 @@ fn exec_src(ob: &mut ObservableVector<T>, vop: &VOp) {
             match end {
                 TxEnd::Commit => tx.commit(),
                 TxEnd::Drop => drop(tx),
+                TxEnd::Forget => {
+                    LEAKED.with(|l| l.set(true));
+                    std::mem::forget(tx)
+                }
                 TxEnd::RollbackDrop => {
                     tx.rollback();
                     drop(tx);
